@@ -1,6 +1,7 @@
 mod core;
 mod gen_diff;
 mod gen_lookup;
+mod gen_soup;
 mod gen_src;
 mod gen_val;
 mod rng;
@@ -23,6 +24,10 @@ fn main() -> anyhow::Result<()> {
         Some("diff") => {
             let mode = a.rest.first().cloned().unwrap_or_else(|| "drift".into());
             let rows = core::par_cases(a.n, a.seed, |ctx, seed, i| gen_diff::generate(ctx, seed, i, &mode));
+            core::write_out(&a.out, &rows)
+        }
+        Some("soup") => {
+            let rows = core::par_cases(a.n, a.seed, |ctx, seed, i| gen_soup::generate(ctx, seed, i));
             core::write_out(&a.out, &rows)
         }
         Some("lookup") => core::write_out(&a.out, &gen_lookup::rows(a.seed, a.n)),
